@@ -83,6 +83,16 @@ theorem index_coords_axes (rows cols : ℕ) (oRow oCol : ℤ) (h0 : 0 ≤ oRow) 
   have : ¬ oCol < 0 := by omega
   simp [*]
 
+/-- without an origin the pole is the centre pixel, of square and non-square frames alike: (0, 0) sits at `(rows // 2, cols // 2)`
+and the axes are `x = col − cols // 2`, `y = rows // 2 − row` -/
+theorem index_coords_default (rows cols row col : ℕ) :
+    indexCoordsDefault rows cols row col = ((col : ℤ) - ((cols / 2 : ℕ) : ℤ), ((rows / 2 : ℕ) : ℤ) - (row : ℤ)) := by
+  unfold indexCoordsDefault defaultPole
+  exact index_coords_axes rows cols _ _ (by omega) (by omega) row col
+
+theorem index_coords_default_pole (rows cols : ℕ) : indexCoordsDefault rows cols (rows / 2) (cols / 2) = (0, 0) := by
+  rw [index_coords_default]; simp
+
 /-! ### 3. reproject_image_into_polar samples at exactly the polar positions -/
 
 theorem reproject_samples_at (oRow oCol r θ : ℝ) :
